@@ -29,7 +29,7 @@ def decode(data):
     p += timecnt
     raw = []
     for i in range(typecnt):
-        off, isdst, ab = struct.unpack('>lbb', data[p:p + 6])
+        off, isdst, ab = struct.unpack('>lbB', data[p:p + 6])
         p += 6
         raw.append((off, isdst, ab))
     chars = data[p:p + charcnt]
@@ -53,7 +53,7 @@ def encode(times, idx, types, isstd=None, isut=None, leap=()):
     out = b'TZif' + b'\0' * 16 + struct.pack('>6l', len(isut), len(isstd), len(leap), len(times), len(types), len(abbrs))
     out += struct.pack('>%dl' % len(times), *times) + struct.pack('>%dB' % len(idx), *idx)
     for o, d, a in types:
-        out += struct.pack('>lbb', o, d, pos[a])
+        out += struct.pack('>lbB', o, d, pos[a])
     out += abbrs
     for t, n in leap:
         out += struct.pack('>ll', t, n)
@@ -183,6 +183,9 @@ def synthetic_shapes():
         'dst-type-first': ([T0, T0 + 100 * DAYS, T0 + 200 * DAYS, T0 + 300 * DAYS], [0, 1, 0, 1], [(2 * H, 1, 'DST'), (H, 0, 'STD')]),
         'dst-type-first-into-std': ([T0, T0 + 100 * DAYS, T0 + 200 * DAYS], [1, 0, 1], [(2 * H, 1, 'DST'), (H, 0, 'STD')]),
         'dst-type-first-three': ([T0, T0 + 100 * DAYS, T0 + 200 * DAYS], [2, 0, 1], [(2 * H, 1, 'DST'), (H, 0, 'STD'), (0, 0, 'OLD')]),
+        # more than 128 local time types (an index above 127 must not be read as a signed byte)
+        'many-types': ([T0 + i * 30 * DAYS for i in range(200)], [(i * 7) % 200 for i in range(200)],
+                       [(H + 60 * i, i % 2, 'T%02d' % (i % 20)) for i in range(200)]),
         'close': ([T0, T0 + 1800, T0 + 100 * DAYS, T0 + 200 * DAYS], [1, 0, 1, 0], [(0, 0, 'STD'), (H, 1, 'DST')]),
     }
 
